@@ -390,8 +390,9 @@ CELLS = ['B2', 'C3', 'D4', 'E5', 'F6', 'G7', 'H8', 'J9']
 RANGES = [('K1', 'M2'), ('N1', 'P2'), ('Q1', 'S2'), ('T1', 'V2'), ('W1', 'Y2'), ('AA1', 'AC2'), ('AD1', 'AF2'), ('AG1', 'AI2')]
 HOSTFN = ['HFA', 'hfb', 'Hfc', 'HFD', 'hfe', 'Hff', 'HFG', 'hfh']       # a host registers names in any letter case
 NESTFN = ['NSA', 'nsb', 'Nsc', 'NSD', 'nse', 'Nsf', 'NSG', 'nsh']
+NESTCELL = ['NCA', 'ncb', 'Ncc', 'NCD', 'nce', 'Ncf', 'NCG', 'nch']      # a custom function that evaluates a CELL reference on the same parser
 TWIN_NAMES = ['YA', 'YB', 'YC', 'YD', 'YE', 'YF', 'YG', 'YH']
-ARG_ROUTES = ['var', 'lit', 'cell', 'cellabs', 'celllow', 'range', 'rangerev', 'rangemix', 'hostfn', 'nested', 'if', 'choose', 'paren', 'slot',
+ARG_ROUTES = ['var', 'lit', 'cell', 'cellabs', 'celllow', 'range', 'rangerev', 'rangemix', 'hostfn', 'nested', 'nestedcell', 'if', 'choose', 'paren', 'slot',
               'varlis', 'lisonly']
 LIS_NAMES = ['ZA', 'ZB', 'ZC', 'ZD', 'ZE', 'ZF', 'ZG', 'ZH']
 # arrays handed over as tuples (a host that reads rows from a database cursor): only where the statement's functions flatten
@@ -441,6 +442,8 @@ def arg_text(i, v, route):
         return HOSTFN[i] + '()'
     if route == 'nested':
         return NESTFN[i] + '()'
+    if route == 'nestedcell':
+        return NESTCELL[i] + '()'
     if route == 'if':
         return 'IF(TRUE,%s,0)' % VAR_NAMES[i]
     if route == 'choose':
@@ -552,6 +555,8 @@ def parser(debug=False):
             p.set_function(name, (lambda k: (lambda: _hostval.get(k)))(i))
         for i, name in enumerate(NESTFN):
             p.set_function(name, _nested(p, VAR_NAMES[i]))
+        for i, name in enumerate(NESTCELL):
+            p.set_function(name, _nested(p, CELLS[i]))
         _parsers[debug] = p
     return p
 
@@ -587,6 +592,8 @@ def _bind(p, c, decoy=False):
             _lisval[LIS_NAMES[i]] = dec(v)
         elif r == 'lisonly':
             _lisval[LIS_NAMES[i]] = dec(v)
+        if r == 'nestedcell':
+            _cellval[CELLS[i]] = dec(v)
         if r in ('cell', 'cellabs', 'celllow'):
             # a host variable spelled like the reference does not shadow the cell (the lexer reads letters+digits as a cell)
             lab = CELLS[i].lower() if r == 'celllow' else CELLS[i]
@@ -698,6 +705,8 @@ def fresh_parser_with_once(debug):
         p.set_function(name, (lambda k: (lambda: _hostval.get(k)))(i))
     for i, name in enumerate(NESTFN):
         p.set_function(name, _nested(p, VAR_NAMES[i]))
+    for i, name in enumerate(NESTCELL):
+        p.set_function(name, _nested(p, CELLS[i]))
     return p
 
 
@@ -717,6 +726,8 @@ def decoy_parser():
             p.set_function(name, (lambda k: (lambda: _hostval.get(k)))(i))
         for i, name in enumerate(NESTFN):
             p.set_function(name, _nested(p, VAR_NAMES[i]))
+        for i, name in enumerate(NESTCELL):
+            p.set_function(name, _nested(p, CELLS[i]))
         _decoy[0] = p
     return _decoy[0]
 
@@ -730,7 +741,7 @@ def _bind_listeners_only(c):
     for i, (v, r) in enumerate(zip(c['args'], c['routes'])):
         if r in ('varlis', 'lisonly'):
             _lisval[LIS_NAMES[i]] = dec(v)
-        if r in ('cell', 'cellabs', 'celllow'):
+        if r in ('cell', 'cellabs', 'celllow', 'nestedcell'):
             _cellval[CELLS[i]] = dec(v)
         elif r in ('range', 'rangerev', 'rangemix'):
             _rangeval[RANGES[i]] = dec(v)
@@ -781,6 +792,8 @@ def request(c):
             fns[HOSTFN[i]] = '(const %s)' % fx.to_wire(dec(v))
         elif r == 'nested':
             fns[NESTFN[i]] = '(const %s)' % fx.to_wire(dec(v))
+        elif r == 'nestedcell':
+            fns[NESTCELL[i]] = '(const %s)' % fx.to_wire(dec(v))
     return 'evalf %s %s' % (enc_str(f), fx.env_wire(variables=variables, fns=fns, cells=cells, ranges=ranges))
 
 
@@ -1149,7 +1162,7 @@ RULE_TEXT = (' Route layer (harness/routes.py, kind route; a random stream of it
              'documents, 20 % neighbours: logicals, numeric text, blank, error values, date-times, arrays), each operand on a route '
              'drawn from {variable, literal, cell listener (relative, absolute, lower-case label), range listener (arrays; the range written '
              'top-left:bottom-right, bottom-right:top-left or bottom-left:top-right), result of a '
-             'custom function, nested evaluation on the same parser inside a custom function, IF(TRUE,x,0), CHOOSE(1,x), parentheses, '
+             'custom function, nested evaluation on the same parser inside a custom function (of the variable, or of a CELL the listener answers), IF(TRUE,x,0), CHOOSE(1,x), parentheses, '
              'empty slot (blank), a name registered with a STALE value that the host\'s callVariable listener answers with the real one, a name '
              'only that listener knows} - a variable spelled like the cell reference is registered beside every cell route (it must not '
              'shadow the cell); one operand off the variable route (40 %), all on one route (20 %), independently mixed (40 %) - and a '
